@@ -526,11 +526,19 @@ class SimKernel:
         new_b = dict(bpf=self.bpf, addressof=self._addressof,
                      c_char=self._cchar, cast=self._cast)
         new_a = dict(mmap=self.mmap, cpu_count=lambda: self.n_online)
-        if hasattr(A, "possible_cpus"):
-            new_a["possible_cpus"] = lambda: self.n_possible
-        if hasattr(B, "possible_cpus"):
-            new_b["possible_cpus"] = lambda: self.n_possible
-        saved = [(mod, k, getattr(mod, k))
+        # the library's own way of finding the number of possible CPUs is
+        # kept: it reads /sys/devices/system/cpu/possible, which we serve
+        import builtins
+        import io
+
+        def fake_open(path, *a, **kw):
+            if str(path) == "/sys/devices/system/cpu/possible":
+                return io.StringIO(self.possible_text() + "\n")
+            return builtins.open(path, *a, **kw)
+        new_a["open"] = fake_open
+        new_b["open"] = fake_open
+        missing = object()
+        saved = [(mod, k, getattr(mod, k, missing))
                  for mod, new in ((B, new_b), (A, new_a)) for k in new]
         try:
             for mod, new in ((B, new_b), (A, new_a)):
@@ -539,7 +547,23 @@ class SimKernel:
             yield self
         finally:
             for mod, k, v in saved:
-                setattr(mod, k, v)
+                if v is missing:
+                    delattr(mod, k)
+                else:
+                    setattr(mod, k, v)
+
+    possible_spelling = 0
+
+    def possible_text(self):
+        """the content of /sys/devices/system/cpu/possible for n_possible
+        CPUs, in one of several equivalent spellings of the same set"""
+        n = self.n_possible
+        if n == 1:
+            return "0"
+        forms = [f"0-{n - 1}",
+                 f"0-{n - 2},{n - 1}" if n > 2 else "0,1",
+                 f"0,1-{n - 1}" if n > 2 else "0-1"]
+        return forms[self.possible_spelling % len(forms)]
 
     # ------------------------------------------------------------ raw user API
     # (used by the self-test and by harnesses that talk to the simulated
